@@ -153,6 +153,13 @@ def build(case):
     C.iotaVal = case['iota']
     if case.get('R0') is not None:
         C.R0 = case['R0']
+
+    def profile(K):
+        # a rotational transform that depends on the radius and vanishes exactly on one radial grid line: iota(r) = a (r - r0)
+        if case.get('iota_profile'):
+            a, r0 = case['iota_profile']
+            K.iota = lambda rr=K.rp, a=a, r0=r0: a * (np.asarray(rr, dtype=float) - r0)
+    profile(C)
     lay = Layout('flux_surface', list(case['nprocs']), [0, 3, 1, 2], eta, list(case['rank']))
     args = (eta, [bs, None], lay, case['dt'], C)
     if case['nL'] != 6:
@@ -165,6 +172,9 @@ def build(case):
     Cref = Constants()
     Cref.iotaVal = case['iota']
     Cref.R0 = C.R0
+    profile(Cref)
+    if case.get('iota_profile'):
+        C.iota = lambda rr=C.rp: np.full_like(np.asarray(rr, dtype=float), 9.9)
     C.iotaVal = -3.3 * (1.0 + abs(case['iota']))
     C.R0 = 0.37 * C.R0
     C = Cref
@@ -230,7 +240,10 @@ def generic_case(rng, chk, it):
     v = sorted(rng.uniform(-span, span) * dz / dt for _ in range(4))
     r = sorted(rng.uniform(0.1, 14.5) for _ in range(4))
     dist = rng.choice([([1], [0]), ([2], [1]), ([2, 2], [1, 1]), ([1, 2], [0, 1])])
-    return dict(fam='generic', sub=rng.randrange(1 << 30), nz=nz, nq=nq, deg=deg, uniform=uniform, dz=dz,
+    prof = None
+    if it % 4 == 3:
+        prof = (rng.choice([0.4, -0.7, 1.3]), r[rng.randrange(4)])
+    return dict(fam='generic', iota_profile=prof, sub=rng.randrange(1 << 30), nz=nz, nq=nq, deg=deg, uniform=uniform, dz=dz,
                 z0=rng.uniform(-2, 2), dt=dt * rng.choice([1, -1]), v=v, r=r,
                 iota=rng.choice([0.8, -0.8, 0.3, 1.7, 25.0]) * rng.uniform(0.5, 1.5),
                 R0=rng.choice([None, 10.0, 239.8081535, 3.7]), nprocs=dist[0], rank=dist[1],
@@ -273,7 +286,7 @@ def _run_case(chk, drv, case, stats):
     if case['fam'] == 'generic':
         # another operator on the same grid, layout block and dt but with other constants is built first in the same process
         # (a scan over iota / R0): nothing may be shared between operators except what depends on the grid alone
-        build(dict(case, iota=(0.0 if case['sub'] % 2 else -2.5 * case['iota']), R0=(None if case.get('R0') is not None else 7.0)))
+        build(dict(case, iota_profile=None, iota=(0.0 if case['sub'] % 2 else -2.5 * case['iota']), R0=(None if case.get('R0') is not None else 7.0)))
     B = build(case)
     fa, bs, nz, nq, nL = B['fa'], B['bs'], case['nz'], case['nq'], case['nL']
     rng = B['rng']
@@ -367,7 +380,7 @@ def formula_reference(case, B, rIdx, cIdx, f0):
     vv = float(B['v'][B['vs'] + cIdx])
     zg = B['z']
     dz = F(float(zg[1])) - F(float(zg[0]))
-    iota = float(C.iotaVal)
+    iota = float(np.asarray(C.iota(np.array([r])))[0])
     bz = 1.0 / np.sqrt(1.0 + (r * iota / C.R0) ** 2)
     zDist = -F(vv) * F(float(bz)) * F(float(case['dt']))
     cells = zDist / dz
